@@ -8,11 +8,22 @@
    and annotations, inline timestamps); a written line parses back to its runs; regions are defined before use
    (for what the writer wrote and for ANY successfully read input); written lines lie inside the tokenizer model's
    faithful domain; line-ending conventions; totality, schedule independence, fault propagation, nothing-to-write,
-   independence of the map iteration orders.  Restrictions stated by repr_vdoc / repr_vline (Proofs/VttDoc.v,
+   independence of the map iteration orders.  READING HALF FOR ALL RENDERINGS (C02_read_rendered, Proofs/VttRead*.v):
+   for every rendering -- byte-order mark, header line with trailing text after a blank or tab, timestamp map, STYLE
+   block, region definitions, per cue a NOTE block, an identifier line present / absent / not a number, each timestamp
+   as mm:ss.ttt or with an hour field of any width, any white space (or none) around the arrow, the settings in any
+   order (a repeated key: the last one wins) after spaces or tabs, blank lines (empty or of white space) in any number
+   where the format allows them, LF / CR LF / CR -- the reader returns what the document denotes (denote_vtt).  Side
+   conditions forced by the proof and outside the property's quantifier are shown necessary by computed
+   counter-examples (the C02_read_rendered_needs examples).  Restrictions stated by repr_vdoc / repr_vline (Proofs/VttDoc.v,
    VttLine.v): adjacent runs with identical tag stacks and no timestamp would be merged by the reader and are
    excluded; annotations and voice names hold no quote; setting values and region ids are ASCII without spaces. *)
 From Coq Require Import List ZArith NArith Permutation.
 From Astisub Require Import Kit.Base Kit.Str Kit.Scan Model.Dur Model.Vtt Proofs.VttIOProofs Proofs.VttBase Proofs.VttLine Proofs.VttSimple Proofs.VttDoc Proofs.EolProofs.
+From Astisub Require Import Proofs.VttReadTime Proofs.VttReadLine Proofs.VttReadDoc Proofs.VttReadDec.
+From Coq Require Strings.String.
+Import Strings.String.StringSyntax.
+Delimit Scope string_scope with string.
 Import ListNotations.
 
 (* writing any representable document, then reading it, returns the document (normalised as the format dictates) *)
@@ -74,6 +85,67 @@ Theorem C02_eol : forall e (ls : list str), eol_ok e -> Forall brkfree ls ->
 Proof. intros e ls He HF. unfold read_vtt. rewrite (lines_render e ls He HF). reflexivity. Qed.
 Print Assumptions C02_eol.
 
+(* ---- the reading half, for all renderings ---- *)
+(* a timestamp in any spelling (hours absent when zero, or an hour field of any width), followed by any white space *)
+Theorem C02_timestamp_spellings : forall hf t w, hform_ok hf t -> (0 <= t <= max_int64)%Z -> SrtReadProofs.ws w ->
+  parse_vtt (ts_render hf t ++ w) = Some (trunc_ms t).
+Proof. exact parse_vtt_ts. Qed.
+(* the document, as lines: general side conditions (Prop) ... *)
+Theorem C02_read_rendered_lines : forall h g cues eof,
+  hrend_ok h g -> gdoc_ok g ->
+  Forall (fun p => gcue_ok (denote_regions g) (snd p) /\ crend_ok (fst p) (snd p)) cues ->
+  Forall (fun p => cr_before (fst p) <> []) (tl cues) -> Forall blank eof ->
+  read_vtt_lines (render_vtt h g cues eof) false = Ok (denote_vtt g cues) /\
+  forallb nobrk (render_vtt h g cues eof) = true.
+Proof. exact read_rendered_vtt. Qed.
+(* ... and as bytes under every line-ending convention, the side conditions as one decidable check *)
+Theorem C02_read_rendered : forall e h g cues eof, eol_ok e -> rendering_okb h g cues eof = true ->
+  read_vtt (render_eol e (render_vtt h g cues eof)) = Ok (denote_vtt g cues).
+Proof. exact read_rendered_vtt_bytes. Qed.
+(* a worked instance that uses every freedom at once (BOM, header text, timestamp map, STYLE block ended by a line of
+   blanks, two regions, NOTE block, identifiers absent / numeric / not a number, mm:ss.ttt, hour fields of 1, 3 and 4
+   digits, hours >= 100, tabs and no space around the arrow, settings shuffled and repeated, zero to two blank lines) *)
+Example C02_read_rendered_example : forall e, eol_ok e ->
+  read_vtt (render_eol e (render_vtt x_h x_g x_cues x_eof)) = Ok (denote_vtt x_g x_cues).
+Proof. exact x_read. Qed.
+Example C02_read_rendered_example_denotes :
+  map (fun it => (vi_idx it, vi_st it, vi_en it, vi_comments it, vi_region it, vi_set it, length (vi_lines it))) (vd_items (denote_vtt x_g x_cues)) =
+  [(0%Z, 1000000000%Z, 2500000000%Z, [b "a comment"; b "more"], Some (b "fred"), Some (mkVset (b "end") [] [] [] (b "rl")), 2%nat);
+   (42%Z, 3723004000000%Z, 442800500000000%Z, [], None, Some vset0, 1%nat);
+   (0%Z, 5000000000%Z, 6000000000%Z, [], None, Some (mkVset [] [] [] (b "50%") []), 0%nat)].
+Proof. exact x_denotes. Qed.
+(* the side conditions the proof forced, each shown necessary on a computed instance (and replayed on the library by the
+   harness suite vtt.needs): a blank line between a cue's text and the next identifier; a blank line after a NOTE block;
+   hours left out only when zero; a STYLE block ends with a line ending in a closing brace; region identifiers distinct;
+   a region defined before it is referred to *)
+Example C02_read_rendered_needs_gap :
+  map (fun it => (vi_idx it, length (vi_lines it))) (match read_vtt_lines (render_vtt x_h x_g [x_c1; n_c2_nogap] []) false with Ok d => vd_items d | _ => [] end)
+    = [(0%Z, 3%nat); (0%Z, 1%nat)] /\
+  map (fun it => (vi_idx it, length (vi_lines it))) (vd_items (denote_vtt x_g [x_c1; n_c2_nogap])) = [(0%Z, 2%nat); (42%Z, 1%nat)].
+Proof. exact read_rendered_needs_gap. Qed.
+Example C02_read_rendered_needs_note_blank :
+  map (fun it => (vi_idx it, vi_comments it)) (match read_vtt_lines (render_vtt x_h x_g [n_c1_nonoteblank] []) false with Ok d => vd_items d | _ => [] end)
+    = [(0%Z, [b "note"; b "42"])] /\
+  map (fun it => (vi_idx it, vi_comments it)) (vd_items (denote_vtt x_g [n_c1_nonoteblank])) = [(42%Z, [b "note"])].
+Proof. exact read_rendered_needs_note_blank. Qed.
+Example C02_read_rendered_needs_hours :
+  map vi_st (match read_vtt_lines (render_vtt x_h x_g [n_c_hours] []) false with Ok d => vd_items d | _ => [] end) = [123004000000%Z] /\
+  map vi_st (vd_items (denote_vtt x_g [n_c_hours])) = [3723004000000%Z].
+Proof. exact read_rendered_needs_hours. Qed.
+Example C02_read_rendered_needs_style_brace :
+  n_items (read_vtt_lines (render_vtt x_h n_g_style [x_c2] []) false) = 1%nat /\
+  match read_vtt_lines (render_vtt x_h n_g_style [x_c2] []) false with
+  | Ok d => map snd (vd_styles d) = [Some [b "::cue { color: red"; b "42"]] /\ map vi_idx (vd_items d) = [0%Z]
+  | _ => False
+  end.
+Proof. exact read_rendered_needs_style_brace. Qed.
+Example C02_read_rendered_needs_distinct_regions :
+  match read_vtt_lines (render_vtt x_h n_g_dupreg [x_c2] []) false with Ok d => length (vd_regions d) | _ => 0%nat end = 1%nat /\
+  length (vd_regions (denote_vtt n_g_dupreg [x_c2])) = 2%nat.
+Proof. exact read_rendered_needs_distinct_regions. Qed.
+Example C02_read_rendered_needs_region_defined : read_vtt_lines (render_vtt x_h n_g_noreg [x_c1] []) false = Err EUnknownRef.
+Proof. exact read_rendered_needs_region_defined. Qed.
+
 (* non-vacuity: a document with comments, a voice, nested tags, an inline timestamp, settings with fallbacks, two
    regions, a STYLE block and a timestamp map satisfies repr_vdoc *)
 Example C02_example : repr_vdoc ex_doc ex_so ex_ro.
@@ -99,3 +171,7 @@ Print Assumptions C02_reader_schedule_independent.
 Print Assumptions C02_reader_reports_faults.
 Print Assumptions C02_nothing_to_write.
 Print Assumptions C02_writer_order_independent.
+Print Assumptions C02_timestamp_spellings.
+Print Assumptions C02_read_rendered_lines.
+Print Assumptions C02_read_rendered.
+Print Assumptions C02_read_rendered_example.
